@@ -12,8 +12,15 @@
 //! bitmap roots.
 use std::collections::BTreeSet;
 use std::panic::AssertUnwindSafe;
+use std::path::Path;
+use std::sync::Arc;
 
-use grin_chain::txhashset::{BitmapAccumulator, BitmapChunk};
+use grin_chain::txhashset::{self, BitmapAccumulator, BitmapChunk, ExtensionPair, PMMRHandle, TxHashSet};
+use grin_chain::{ChainStore, Tip};
+use grin_core::core::hash::Hashed;
+use grin_core::core::{Block, Input, Inputs, Output, OutputFeatures, TransactionBody};
+use grin_util::secp::constants::MAX_PROOF_SIZE;
+use grin_util::secp::pedersen::{Commitment, RangeProof};
 use grin_chain::types::{OutputRoots, TxHashSetRoots};
 use grin_core::core::hash::{Hash, ZERO_HASH};
 use grin_core::core::pmmr::{self, ReadablePMMR};
@@ -629,21 +636,566 @@ fn raw(out: &mut Out, rng: &mut Rng, thorough: bool) {
 	out.raw(&format!("#STAT tampered-bitmap-root headers={} (versions 1-2 do not commit to the bitmap: accepted there by design)", n_tamper));
 }
 
+
+// ---------------------------------------------------------------------------------------------
+// `ext`: the REAL `Extension::{apply_block, rewind}` on an on-disk TxHashSet, synthetic blocks.
+// Nothing at this level verifies signatures, range proofs or PoW, so blocks are just unique
+// dummy commitments; what is exercised is how the Extension collects `affected_pos` (new output
+// pos + spent pos in apply_block; spent pos + output_pmmr.size per rewound block, aggregated over
+// all rewound blocks, in rewind) and hands it to the bitmap accumulator.
+// ---------------------------------------------------------------------------------------------
+
+struct Obs {
+	acc: String,
+	committed: String,
+	scratch: String,
+	leaf_set: Vec<u64>,
+	merged_lines: Vec<(String, String)>,
+	oracle_msgs: Vec<String>,
+}
+
+/// observe the extension: committed bitmap root, the accumulator, the from-scratch accumulator
+/// over the extension's actual output PMMR, and validate_roots on an honest / a tampered header
+fn observe(ext: &mut ExtensionPair<'_>, header: &BlockHeader, rng_flip: u64) -> Result<Obs, grin_chain::Error> {
+	let roots = ext.extension.roots()?;
+	let committed = roots.output_roots.bitmap_root;
+	let (scratch_root, leaf_set, nl) = {
+		let pmmr = ext.extension.output_readonly_pmmr();
+		let nl = pmmr::n_leaves(pmmr.unpruned_size());
+		let leaf_set: Vec<u64> = pmmr.leaf_idx_iter(0).collect();
+		let mut a = BitmapAccumulator::new();
+		a.init(&mut pmmr.leaf_idx_iter(0), nl)?;
+		(a.root(), leaf_set, nl)
+	};
+	let acc = ext.extension.bitmap_accumulator();
+	let mut merged_lines = vec![];
+	let mut oracle_msgs = vec![];
+	if header.height > 0 {
+		let mut h = header.clone();
+		h.range_proof_root = roots.rproof_root;
+		h.kernel_root = roots.kernel_root;
+		h.output_root = roots.output_root(&h);
+		let honest = ext.extension.validate_roots(&h).is_ok();
+		if !honest {
+			oracle_msgs.push(format!("header committing to the true bitmap root refused by validate_roots at height {}", h.height));
+		}
+		let v: u16 = h.version.into();
+		merged_lines.push((
+			format!(
+				"bitmap merged {} {} {} {} {}",
+				v,
+				hex(roots.output_roots.pmmr_root.as_bytes()),
+				hex(committed.as_bytes()),
+				h.output_mmr_size,
+				hex(h.output_root.as_bytes())
+			),
+			(if honest { "ok" } else { "invalid" }).to_string(),
+		));
+		// a header committing to another bitmap: one output more spent / unspent
+		if nl > 0 {
+			let mut u2: BTreeSet<u64> = leaf_set.iter().cloned().collect();
+			let flip = rng_flip % nl;
+			if !u2.remove(&flip) {
+				u2.insert(flip);
+			}
+			let mut a = BitmapAccumulator::new();
+			a.init(u2.iter().cloned(), nl)?;
+			let other_root = a.root();
+			if other_root != committed {
+				let other = OutputRoots {
+					pmmr_root: roots.output_roots.pmmr_root,
+					bitmap_root: other_root,
+				};
+				h.output_root = other.root(&h);
+				let accepted = ext.extension.validate_roots(&h).is_ok();
+				if accepted && v >= 3 {
+					oracle_msgs.push(format!(
+						"header committing to another bitmap (leaf {} flipped) accepted by validate_roots at height {}",
+						flip, h.height
+					));
+				}
+				merged_lines.push((
+					format!(
+						"bitmap merged {} {} {} {} {}",
+						v,
+						hex(roots.output_roots.pmmr_root.as_bytes()),
+						hex(committed.as_bytes()),
+						h.output_mmr_size,
+						hex(h.output_root.as_bytes())
+					),
+					(if accepted { "ok" } else { "invalid" }).to_string(),
+				));
+			}
+		}
+	}
+	let hs = |h: Hash| if h == ZERO_HASH { "zero".to_string() } else { hex(h.as_bytes()) };
+	Ok(Obs {
+		acc: acc_str(&acc),
+		committed: hs(committed),
+		scratch: hs(scratch_root),
+		leaf_set,
+		merged_lines,
+		oracle_msgs,
+	})
+}
+
+#[derive(Default)]
+struct XStats {
+	histories: u64,
+	blocks: u64,
+	growth_blocks: u64,
+	fork_blocks: u64,
+	rewinds: u64,
+	depth: [u64; 5],
+	rewinds_cross: u64,
+	rewinds_newer_older_chunk: u64,
+	restarts: u64,
+	max_n: u64,
+	max_chunks: u64,
+	oracle_evals: u64,
+	validate_honest: u64,
+	validate_tampered: u64,
+	pat: std::collections::BTreeMap<&'static str, u64>,
+}
+
+struct XChain {
+	dir: String,
+	store: Arc<ChainStore>,
+	header_pmmr: PMMRHandle<BlockHeader>,
+	txhs: Option<TxHashSet>,
+	/// current chain path, index = height
+	headers: Vec<BlockHeader>,
+	/// per height >= 1
+	recs: Vec<BlockRec>,
+	n: u64,
+	unspent: BTreeSet<u64>,
+	/// commitment of leaf idx (truncated on rewind)
+	commits: Vec<Commitment>,
+	counter: u64,
+	log: Vec<String>,
+}
+
+fn fake_commit(n: u64) -> Commitment {
+	let mut v = vec![0u8; 33];
+	v[0] = 0x09;
+	v[1..9].copy_from_slice(&n.to_be_bytes());
+	v[32] = 1;
+	Commitment::from_vec(v)
+}
+
+fn xerr<T, E: std::fmt::Debug>(r: Result<T, E>, what: &str) -> T {
+	match r {
+		Ok(v) => v,
+		Err(e) => {
+			eprintln!("bitmap ext: {} failed: {:?}", what, e);
+			std::process::exit(3);
+		}
+	}
+}
+
+impl XChain {
+	fn new(dir: String) -> XChain {
+		let _ = std::fs::remove_dir_all(&dir);
+		xerr(std::fs::create_dir_all(&dir), "mkdir");
+		let store = Arc::new(xerr(ChainStore::new(&dir, None), "ChainStore::new"));
+		let txhs = xerr(TxHashSet::open(dir.clone(), store.clone(), None), "TxHashSet::open");
+		let header_pmmr = xerr(
+			PMMRHandle::<BlockHeader>::new(
+				Path::new(&dir).join("header").join("header_head"),
+				false,
+				ProtocolVersion(1),
+				None,
+			),
+			"header PMMRHandle",
+		);
+		let genesis = BlockHeader::default();
+		{
+			let mut batch = xerr(store.batch(), "batch");
+			xerr(batch.save_block_header(&genesis), "save genesis header");
+			xerr(batch.save_block(&Block::with_header(genesis.clone())), "save genesis");
+			let tip = Tip::from_header(&genesis);
+			xerr(batch.save_body_head(&tip), "body head");
+			xerr(batch.save_header_head(&tip), "header head");
+			xerr(batch.commit(), "commit");
+		}
+		XChain {
+			dir,
+			store,
+			header_pmmr,
+			txhs: Some(txhs),
+			headers: vec![genesis],
+			recs: vec![],
+			n: 0,
+			unspent: BTreeSet::new(),
+			commits: vec![],
+			counter: 0,
+			log: vec![],
+		}
+	}
+
+	/// after every step: self-check of the harness bookkeeping, driver lines, oracle in Rust
+	fn report(&mut self, out: &mut Out, st: &mut XStats, lhs: &str, obs: Obs) {
+		let tracked: Vec<u64> = self.unspent.iter().cloned().collect();
+		if tracked != obs.leaf_set {
+			eprintln!(
+				"bitmap ext: harness bookkeeping differs from the real leaf set after {} (history: {})",
+				lhs,
+				self.log.join("; ")
+			);
+			std::process::exit(3);
+		}
+		st.max_n = st.max_n.max(self.n);
+		st.max_chunks = st.max_chunks.max((self.n + NBITS - 1) / NBITS);
+		// model line: the accumulator the Extension holds vs the model's extApply with the
+		// affected positions derived from the block contents
+		out.line(lhs, &obs.acc);
+		// property oracle on the real code
+		st.oracle_evals += 1;
+		if obs.committed != obs.scratch {
+			out.raw(&format!(
+				"#ORACLE-FAIL C15 committed bitmap root differs from the from-scratch root of the actual unspent set: committed {} scratch {} after [{}]",
+				obs.committed,
+				obs.scratch,
+				self.log.join("; ")
+			));
+		}
+		// the same against the model's from-scratch root (cmpSpec)
+		out.line("bitmap scratch", &obs.committed);
+		for m in &obs.oracle_msgs {
+			out.raw(&format!("#ORACLE-FAIL C15 {} after [{}]", m, self.log.join("; ")));
+		}
+		for (i, (l, r)) in obs.merged_lines.iter().enumerate() {
+			if i == 0 {
+				st.validate_honest += 1
+			} else {
+				st.validate_tampered += 1
+			}
+			out.line(l, r);
+		}
+	}
+
+	fn apply_block(&mut self, out: &mut Out, st: &mut XStats, rng: &mut Rng, k: u64, spent: Vec<u64>) {
+		let n_before = self.n;
+		let proof = RangeProof {
+			proof: [0; MAX_PROOF_SIZE],
+			plen: MAX_PROOF_SIZE,
+		};
+		let outputs: Vec<Output> = (0..k)
+			.map(|_| {
+				self.counter += 1;
+				Output::new(OutputFeatures::Plain, fake_commit(self.counter), proof)
+			})
+			.collect();
+		let inputs: Vec<Input> = spent
+			.iter()
+			.map(|i| Input::new(OutputFeatures::Plain, self.commits[*i as usize]))
+			.collect();
+		let body = xerr(
+			TransactionBody::init(Inputs::from(&inputs[..]), &outputs, &[], false),
+			"TransactionBody::init",
+		);
+		let prev = self.headers.last().unwrap().clone();
+		let mut header = BlockHeader::default();
+		header.version = HeaderVersion(5);
+		header.height = prev.height + 1;
+		header.prev_hash = prev.hash();
+		self.counter += 1;
+		header.pow.nonce = self.counter;
+		*header.pow.proof.nonces.last_mut().unwrap() = self.counter;
+		header.output_mmr_size = pmmr::insertion_to_pmmr_index(n_before + k);
+		header.kernel_mmr_size = 0;
+		let block = Block { header, body };
+		for o in block.outputs() {
+			self.commits.push(o.commitment());
+		}
+		for i in n_before..n_before + k {
+			self.unspent.insert(i);
+		}
+		for s in &spent {
+			self.unspent.remove(s);
+		}
+		self.n = n_before + k;
+		self.log.push(format!("block h={} k={} spent={}", block.header.height, k, nat_list(&spent)));
+		let flip = rng.next();
+		let obs = {
+			let mut batch = xerr(self.store.batch(), "batch");
+			xerr(batch.save_block_header(&block.header), "save_block_header");
+			xerr(batch.save_block(&block), "save_block");
+			let obs = xerr(
+				txhashset::extending(
+					&mut self.header_pmmr,
+					self.txhs.as_mut().unwrap(),
+					&mut batch,
+					|ext, batch| {
+						ext.extension.apply_block(&block, ext.header_extension, batch)?;
+						observe(ext, &block.header, flip)
+					},
+				),
+				"extending/apply_block",
+			);
+			let tip = Tip::from_header(&block.header);
+			xerr(batch.save_body_head(&tip), "body head");
+			xerr(batch.save_header_head(&tip), "header head");
+			xerr(batch.commit(), "commit");
+			obs
+		};
+		self.headers.push(block.header.clone());
+		self.recs.push(BlockRec { n_before, spent: spent.clone() });
+		st.blocks += 1;
+		self.report(out, st, &format!("bitmap block {} {}", k, nat_list(&spent)), obs);
+	}
+
+	/// ONE `Extension::rewind` call over `depth` blocks
+	fn rewind(&mut self, out: &mut Out, st: &mut XStats, rng: &mut Rng, depth: usize) {
+		let n_old = self.n;
+		let target_h = self.headers.len() - 1 - depth;
+		let target = self.headers[target_h].clone();
+		// what the Extension must collect: for each rewound block, newest first,
+		// its spent pos, then output_pmmr.size after rewinding it
+		let mut affected: Vec<u64> = vec![];
+		let mut restored: BTreeSet<u64> = BTreeSet::new();
+		let mut min_chunk_per_block: Vec<u64> = vec![];
+		for _ in 0..depth {
+			let b = self.recs.pop().unwrap();
+			self.headers.pop();
+			let mut minc = u64::MAX;
+			for s in &b.spent {
+				affected.push(pos1(*s));
+				restored.insert(*s);
+				minc = minc.min(*s / NBITS);
+			}
+			affected.push(pmmr::insertion_to_pmmr_index(b.n_before));
+			minc = minc.min(b.n_before.saturating_sub(1) / NBITS);
+			min_chunk_per_block.push(minc);
+			self.n = b.n_before;
+		}
+		let n_new = self.n;
+		self.commits.truncate(n_new as usize);
+		self.unspent = self.unspent.iter().cloned().filter(|x| *x < n_new).collect();
+		let restored: Vec<u64> = restored.into_iter().filter(|x| *x < n_new).collect();
+		for r in &restored {
+			self.unspent.insert(*r);
+		}
+		self.log.push(format!("rewind depth={} to h={} n={}", depth, target_h, n_new));
+		let flip = rng.next();
+		let obs = {
+			let mut batch = xerr(self.store.batch(), "batch");
+			let obs = xerr(
+				txhashset::extending(
+					&mut self.header_pmmr,
+					self.txhs.as_mut().unwrap(),
+					&mut batch,
+					|ext, batch| {
+						ext.extension.rewind(&target, batch)?;
+						observe(ext, &target, flip)
+					},
+				),
+				"extending/rewind",
+			);
+			let tip = Tip::from_header(&target);
+			xerr(batch.save_body_head(&tip), "body head");
+			xerr(batch.save_header_head(&tip), "header head");
+			xerr(batch.commit(), "commit");
+			obs
+		};
+		st.rewinds += 1;
+		st.depth[depth.min(4)] += 1;
+		if n_new == 0 || (n_old > 0 && (n_new - 1) / NBITS < (n_old - 1) / NBITS) {
+			st.rewinds_cross += 1;
+		}
+		// min_chunk_per_block is newest-first; the oldest rewound block is the last entry
+		if depth >= 2 {
+			let oldest = *min_chunk_per_block.last().unwrap();
+			if min_chunk_per_block[..depth - 1].iter().any(|c| *c < oldest) {
+				st.rewinds_newer_older_chunk += 1;
+			}
+		}
+		self.report(
+			out,
+			st,
+			&format!("bitmap rewind {} {} {}", n_new, nat_list(&restored), nat_list(&affected)),
+			obs,
+		);
+	}
+
+	fn restart(&mut self, out: &mut Out, st: &mut XStats, rng: &mut Rng) {
+		self.txhs = None; // drop: closes the backend files
+		self.txhs = Some(xerr(
+			TxHashSet::open(self.dir.clone(), self.store.clone(), None),
+			"TxHashSet::open (restart)",
+		));
+		self.log.push("restart".to_string());
+		let head = self.headers.last().unwrap().clone();
+		let flip = rng.next();
+		let obs = xerr(
+			txhashset::extending_readonly(&mut self.header_pmmr, self.txhs.as_mut().unwrap(), |ext, _batch| {
+				observe(ext, &head, flip)
+			}),
+			"extending_readonly",
+		);
+		st.restarts += 1;
+		self.report(out, st, "bitmap reopen", obs);
+	}
+}
+
+/// spends for the `ext` histories, placed per the quantifier text
+fn pick_spends_ext(rng: &mut Rng, cands: &BTreeSet<u64>, n: u64, st: &mut XStats) -> Vec<u64> {
+	if cands.is_empty() || n == 0 {
+		return vec![];
+	}
+	let last_chunk = (n - 1) / NBITS;
+	let in_chunk = |c: u64| -> Vec<u64> { cands.range(c * NBITS..(c + 1) * NBITS).cloned().collect() };
+	let few = |rng: &mut Rng, v: Vec<u64>, max: u64| -> Vec<u64> {
+		let mut r = vec![];
+		if v.is_empty() {
+			return r;
+		}
+		for _ in 0..rng.range(1, max) {
+			r.push(*rng.pick(&v));
+		}
+		r
+	};
+	let (name, mut v): (&'static str, Vec<u64>) = match rng.below(9) {
+		0 => ("none", vec![]),
+		1 | 2 => {
+			let c = rng.below(last_chunk.max(1));
+			("old-chunk", few(rng, in_chunk(c), 6))
+		}
+		3 => ("chunk-0", few(rng, in_chunk(0), 4)),
+		4 | 5 => {
+			let mut v = vec![];
+			for c in 1..=last_chunk + 1 {
+				for d in [c * NBITS - 1, c * NBITS] {
+					if cands.contains(&d) && rng.chance(1, 2) {
+						v.push(d);
+					}
+				}
+			}
+			("chunk-boundaries", v)
+		}
+		6 => ("last-partial", few(rng, in_chunk(last_chunk), 8)),
+		7 => ("last-chunk-many", in_chunk(last_chunk).into_iter().filter(|_| rng.chance(1, 2)).collect()),
+		_ => {
+			let c = rng.below(last_chunk.max(1));
+			("whole-old-chunk", in_chunk(c))
+		}
+	};
+	*st.pat.entry(name).or_insert(0) += 1;
+	v.sort_unstable();
+	v.dedup();
+	v
+}
+
+fn ext(out: &mut Out, rng: &mut Rng, thorough: bool) {
+	let work = std::env::var("VERIF_WORK").unwrap_or_else(|_| "target/verif_work_bitmap".to_string());
+	let mut st = XStats::default();
+	let (nh, steps) = if thorough { (40, 45) } else { (5, 28) };
+	for h in 0..nh {
+		st.histories += 1;
+		out.raw("bitmap new 2");
+		let mut x = XChain::new(format!("{}/ext{}", work, h));
+		// growth: blocks of 300-700 outputs up to 2000-4500 leaves, a few spends on the way
+		let target = rng.range(2000, 4500);
+		while x.n < target {
+			let k = rng.range(300, 700);
+			let spent = if x.n > 0 && rng.chance(1, 2) {
+				let c = x.unspent.clone();
+				pick_spends_ext(rng, &c, x.n, &mut st)
+			} else {
+				vec![]
+			};
+			x.apply_block(out, &mut st, rng, k, spent);
+			st.growth_blocks += 1;
+		}
+		let base_blocks = x.recs.len();
+		let mut since_rewind = 0u64;
+		for _ in 0..steps {
+			let kind = rng.below(20);
+			let avail = x.recs.len().saturating_sub(1); // never rewind below the first block
+			if kind < 11 || avail == 0 {
+				let to_boundary = NBITS - x.n % NBITS;
+				let k = match rng.below(8) {
+					0 => to_boundary,
+					1 => to_boundary + 1,
+					2 => (to_boundary - 1).max(1),
+					3 => rng.range(20, 200),
+					_ => rng.range(1, 6),
+				};
+				let c = x.unspent.clone();
+				let spent = pick_spends_ext(rng, &c, x.n, &mut st);
+				x.apply_block(out, &mut st, rng, k, spent);
+				if x.recs.len() <= base_blocks || since_rewind > 0 {
+					st.fork_blocks += 1;
+				}
+			} else if kind < 13 && avail >= 2 {
+				// the shape the aggregate affected_pos is about: an older block that only touches
+				// the last chunk, then a newer one spending in an old chunk, then ONE rewind of both
+				let c = x.unspent.clone();
+				let last_chunk = (x.n - 1) / NBITS;
+				let s1: Vec<u64> = c.range(last_chunk * NBITS..).take(2).cloned().collect();
+				let k1 = rng.range(1, 4);
+				x.apply_block(out, &mut st, rng, k1, s1);
+				let c = x.unspent.clone();
+				let oc = rng.below(last_chunk.max(1));
+				let mut s2: Vec<u64> = c.range(oc * NBITS..(oc + 1) * NBITS).cloned().collect();
+				s2.truncate(rng.range(1, 3) as usize);
+				let k2 = rng.range(1, 4);
+				x.apply_block(out, &mut st, rng, k2, s2);
+				*st.pat.entry("planned-newer-block-spends-older-chunk").or_insert(0) += 2;
+				let extra = if rng.chance(1, 3) && x.recs.len() - 1 >= 3 { 1 } else { 0 };
+				x.rewind(out, &mut st, rng, 2 + extra);
+				since_rewind = 1;
+			} else if kind < 18 {
+				let depth = rng.range(1, (avail as u64).min(4)) as usize;
+				x.rewind(out, &mut st, rng, depth);
+				since_rewind = 1;
+			} else {
+				x.restart(out, &mut st, rng);
+			}
+		}
+		drop(x);
+		let _ = std::fs::remove_dir_all(format!("{}/ext{}", work, h));
+	}
+	out.raw(&format!(
+		"#STAT ext histories={} real Extension::apply_block calls={} (growth {} / after a rewind or beyond {}) Extension::rewind calls={} depth1={} depth2={} depth3={} depth4+={} restarts={}",
+		st.histories, st.blocks, st.growth_blocks, st.fork_blocks, st.rewinds, st.depth[1], st.depth[2], st.depth[3], st.depth[4], st.restarts
+	));
+	out.raw(&format!(
+		"#STAT ext max leaves={} max chunks={} rewinds shrinking across a chunk boundary={} multi-block rewinds where a NEWER rewound block touched an OLDER chunk than the oldest rewound block={}",
+		st.max_n, st.max_chunks, st.rewinds_cross, st.rewinds_newer_older_chunk
+	));
+	out.raw(&format!("#STAT ext spend patterns {:?}", st.pat));
+	out.raw(&format!(
+		"#STAT ext oracle evaluations committed root = from-scratch root={} validate_roots honest headers={} tampered-bitmap headers={}",
+		st.oracle_evals, st.validate_honest, st.validate_tampered
+	));
+}
+
 fn main() {
 	if std::env::var("VERIF_LOUD").is_err() {
 		quiet_panics();
 	}
-	grin_core::global::set_local_chain_type(grin_core::global::ChainTypes::AutomatedTesting);
 	let args: Vec<String> = std::env::args().collect();
 	let mode = args.get(1).map(|s| s.as_str()).unwrap_or("hist");
-	let mut rng = Rng::new(seed_from_env() ^ if mode == "raw" { 0x5151 } else { 0 });
+	// `ext` needs mainnet block weight (hundreds of outputs per block)
+	grin_core::global::set_local_chain_type(if mode == "ext" {
+		grin_core::global::ChainTypes::Mainnet
+	} else {
+		grin_core::global::ChainTypes::AutomatedTesting
+	});
+	let mut rng = Rng::new(seed_from_env() ^ match mode {
+		"raw" => 0x5151,
+		"ext" => 0xe7e7,
+		_ => 0,
+	});
 	let mut out = Out::stdout();
 	let thorough = tier_thorough();
 	match mode {
 		"hist" => hist(&mut out, &mut rng, thorough),
 		"raw" => raw(&mut out, &mut rng, thorough),
+		"ext" => ext(&mut out, &mut rng, thorough),
 		_ => {
-			eprintln!("usage: bitmap hist|raw");
+			eprintln!("usage: bitmap hist|raw|ext");
 			std::process::exit(2);
 		}
 	}
